@@ -130,7 +130,7 @@ type sysWalker struct {
 	nodes    int
 	bareWh   map[string]bool // directories in which a layer has a file named exactly ".wh."
 	aborted  bool            // a known defect class made the rest of this walk meaningless
-	whPassed int // overlay: whiteouts of a non-merged lower directory shown by readdir, ENOENT on lstat (kernel behaviour)
+	whPassed int             // overlay: whiteouts of a non-merged lower directory shown by readdir, ENOENT on lstat (kernel behaviour)
 	trunc    bool
 }
 
